@@ -85,7 +85,7 @@ func runHistReplay(t *testing.T, seed int64, n int, out *Out) {
 			}
 			pools := []J{}
 			for _, p := range std.Pools {
-				pools = append(pools, J{"id": p.Id, "addr": p.Addr, "oracle": p.Oracle, "perp": p.Perp, "denoms": p.Denoms, "shareDenom": p.ShareDen, "treasury": p.Treasury})
+				pools = append(pools, J{"id": p.Id, "addr": p.Addr, "oracle": p.Oracle, "perp": p.Perp, "denoms": p.Denoms, "weights": p.Weights, "shareDenom": p.ShareDen, "treasury": p.Treasury})
 			}
 			hi = st.Id
 			halted = false
